@@ -1,7 +1,8 @@
 """C04 - bounded exploration of the real controller (see checks/ctrlx.py) plus proved per-function obligations."""
 from checks import common, ctrl_common
 
-PROVED_TARGETS = ['cascade.controller.notify:consider_purge', 'cascade.controller.notify:consider_fetch', 'cascade.controller.notify:is_last_output_of']
+PROVED_TARGETS = ['cascade.controller.notify:consider_purge', 'cascade.controller.notify:consider_fetch', 'cascade.controller.notify:is_last_output_of',
+                  'cascade.executor.bridge:Bridge.transmit', 'cascade.executor.bridge:Bridge.fetch', 'cascade.executor.bridge:Bridge.purge', 'cascade.executor.bridge:Bridge.task_sequence']
 
 
 def run(tier, seed):
